@@ -26,7 +26,7 @@ theorem argmin_is_first_minimum (xs : List Rat) (h : xs ≠ []) (i : Nat) :
 
 /-- The shell boundaries the property speaks of are the between-radii of `molgri/space/translations.py`:
 `get_between_radii(t)[k] = (t_k + t_{k+1})/2`, the last one `t_last + (t_last − t_prev)/2`. -/
-theorem between_radii_spec (t : List Rat) (hs : t.Pairwise (· < ·)) (hn : 2 ≤ t.length) (hpos : ∀ r ∈ t, 0 < r) :
+theorem between_radii_spec (t : List Rat) (hs : t.Pairwise (· < ·)) (hn : 2 ≤ t.length) (hpos : ∀ r ∈ t, 0 ≤ r) :
     betweenRadii t = .ok ((List.range t.length).map (shellUpper t)) :=
   betweenRadii_eq t hs hn hpos
 
@@ -51,7 +51,7 @@ theorem nearest_radius_with_outliers (t : List Rat) (hs : t.Pairwise (· < ·)) 
   Molgri.Assign.nearest_radius_with_outliers t hs hne d k
 
 /-- non-vacuity: radii `[3, 5, 8]` (Å); distance 6.5 lies on the boundary of shells 1 and 2 and goes to shell 1 -/
-example : ([3, 5, 8] : List Rat).Pairwise (· < ·) ∧ 2 ≤ ([3, 5, 8] : List Rat).length ∧ (∀ r ∈ ([3, 5, 8] : List Rat), 0 < r)
+example : ([3, 5, 8] : List Rat).Pairwise (· < ·) ∧ 2 ≤ ([3, 5, 8] : List Rat).length ∧ (∀ r ∈ ([3, 5, 8] : List Rat), 0 ≤ r)
     ∧ shellUpper [3, 5, 8] 1 = 13 / 2 ∧ shellUpper [3, 5, 8] 2 = 19 / 2 := by
   refine ⟨by simp; norm_num, by simp, by simp, by simp [shellUpper]; norm_num, by simp [shellUpper]; norm_num⟩
 
@@ -144,44 +144,43 @@ theorem sign_table_result_pm (L : List I3) (hL : ∀ a ∈ L, SgnTriple a) (e : 
 example : EvenFlip (-1, 1, -1) ∧ ∀ a ∈ [((1 : Int), (0 : Int), (-1 : Int)), (1, 1, 0)], SgnTriple a := by
   simp [EvenFlip, IsPM, SgnTriple, IsSgn]
 
-/-
-OPEN (false for the code as it exists — known finding `C11:last_atom_on_axis`).  Full-strength totality:
-
-theorem sign_fix_total (L : List I3) (hL : ∀ a ∈ L, SgnTriple a) (hdet : ∃ a ∈ L, zeros a ≤ 1) :
-    ∃ d, positiveDirections L = .ok d
-
-i.e. "if some atom has non-zero (rounded) projections on at least two principal axes, the directions are found".
-What is proved instead carries the excluding hypothesis on the atom the loop actually ends with.
--/
-/-- The code finds directions iff the atom the loop ends with (first atom without zero, else the LAST atom) has at most
-one zero. -/
-theorem sign_fix_total_partial (L : List I3) :
-    (∃ d, positiveDirections L = .ok d) ↔ zeros (dirLoop L (0, 0, 0)) ≤ 1 := by
+/-- **Sign fixing is total where it can be** (full statement; it was false before fix c9b2235, finding
+`C11:last_atom_on_axis`): the directions are found if and only if some atom has non-zero (rounded) projections on at
+least two principal axes; `ValueError` only when every atom lies on a principal axis. -/
+theorem sign_fix_total (L : List I3) :
+    (∃ d, positiveDirections L = .ok d) ↔ ∃ a ∈ L, zeros a ≤ 1 := by
+  have hz := dirLoop_zeros L (0, 0, 0) 4 (Or.inr ⟨rfl, rfl⟩)
+  have h0 : ¬ zeros ((0, 0, 0) : I3) ≤ 1 := by decide
+  simp only [h0, false_or] at hz
+  rw [← hz]
   unfold positiveDirections fixDirections
   constructor
   · rintro ⟨d, h⟩
     by_contra hc
-    have h1 : ¬ zeros (dirLoop L (0, 0, 0)) = 1 := by omega
-    have h2 : zeros (dirLoop L (0, 0, 0)) > 1 := by omega
+    have h1 : ¬ zeros (dirLoop L (0, 0, 0) 4) = 1 := by omega
+    have h2 : zeros (dirLoop L (0, 0, 0) 4) > 1 := by omega
     simp [h1, h2] at h
   · intro h
-    by_cases h1 : zeros (dirLoop L (0, 0, 0)) = 1
+    by_cases h1 : zeros (dirLoop L (0, 0, 0) 4) = 1
     · exact ⟨_, by simp [h1]; rfl⟩
-    · have h2 : ¬ zeros (dirLoop L (0, 0, 0)) > 1 := by omega
+    · have h2 : ¬ zeros (dirLoop L (0, 0, 0) 4) > 1 := by omega
       exact ⟨_, by simp [h1, h2]; rfl⟩
 
-/-- Witness that the full statement fails on the model (and on the code): two atoms, the first fixes two axes, the last
-lies on an axis → `ValueError`. -/
-theorem sign_fix_total_fails_witness :
-    (∃ a ∈ [((1 : Int), (1 : Int), (0 : Int)), (1, 0, 0)], zeros a ≤ 1) ∧
-    positiveDirections [(1, 1, 0), (1, 0, 0)] = .error "ValueError" := by
+/-- Regression witness of finding `C11:last_atom_on_axis` (planar symmetric water in the order H,H,O): the first atom
+fixes two axes, the last one lies on an axis.  The pre-fix loop ended with the last atom and raised `ValueError`; the
+model of the repaired code returns the directions of the first atom completed by the right-handed table. -/
+theorem sign_fix_last_atom_on_axis_witness :
+    positiveDirections [(1, 1, 0), (1, 0, 0)] = .ok (1, 1, 1) ∧
+    positiveDirections [(1, 0, 0), (-1, 1, 0), (0, 0, 0)] = .ok (-1, 1, -1) := by
   decide
 
 /-
-OPEN part of `sign_fix_recovers` (known finding `C11:sign_noise`): the theorem below needs the frame's atom positions to
-be the EXACT rigid images of the reference positions.  In the implementation they are float32 numbers, and a
-structurally zero projection whose rounding noise exceeds the threshold of `sgnRound` (5·10⁻⁷) changes the sign pattern;
-the hypothesis `hfpos` is then false and the conclusion fails (left-handed matrix → `ValueError`, or a wrong rotation).
+Hypothesis that is NOT discharged (why `sign_fix_recovers` stays `_partial`): the frame's atom positions are the EXACT
+rigid images of the reference positions (`hfpos` in `pt_roundtrip`).  In the implementation they are float32 numbers; a
+structurally zero projection carries rounding noise (≤ 1e-5 Å for coordinates up to 32 Å and moment gaps ≥ 0.5 %).
+Before fix c9b2235 the zero test had the threshold 5·10⁻⁷ Å and the noise changed the sign pattern (finding
+`C11:sign_noise`); with the threshold 5·10⁻⁴ Å it no longer does on the explored inputs, but that is established by the
+correspondence check and the oracle, not by a theorem (it is a statement about float rounding).
 -/
 /-- **`sign_fix_recovers` (partial)**: let the frame be a rigid image `p ↦ R p + T` (`RᵀR = 1`) of the reference molecule
 and let its principal axes be `sᵢ · R aᵢ` with an even number of flips (assumption on `principal_axes`, both frames
@@ -308,11 +307,14 @@ def exFrame : Frame :=
   { pos := exMol.pos.map (rigid (rotMat ⟨1, 0, 0, 0⟩) ⟨0, 3, 0⟩), d := 3, nu := 1,
     pa := flipRows (1, -1, -1) (M3.mul exMol.pa (M3.transpose (rotMat ⟨1, 0, 0, 0⟩))) }
 
-example : refDirections (1 / 2000000) exMol = .ok (-1, -1, 1) := by
-  simp [refDirections, exMol, centerOfMass, V3.smul, V3.add, atomSigns, V3.sub, V3.dot, sgnRound, positiveDirections,
-    dirLoop, zeros, fixDirections, tableLoop, allowedRighthanded, nMatch]
-  norm_num
-  rfl
+example : refDirections (1 / 2000) exMol = .ok (-1, -1, 1) := by
+  have hs : exMol.pos.map (atomSigns (1 / 2000) exMol.pa (centerOfMass exMol.masses exMol.pos))
+      = [(1, 0, 0), (0, 1, 0), (-1, -1, 0)] := by
+    simp [exMol, centerOfMass, V3.smul, V3.add, atomSigns, V3.sub, V3.dot, sgnRound]
+    norm_num
+  unfold refDirections
+  simp only [hs]
+  decide
 
 example : exMol.masses.length = exMol.pos.length ∧ exMol.masses.sum ≠ 0 ∧ M3.det exMol.pa ≠ 0 ∧ EvenFlip (1, -1, -1) ∧
     exGrid.t.Pairwise (· < ·) ∧ exGrid.o.Nodup ∧ (∀ q ∈ exGrid.b, Q4.normSq q = 1) ∧
@@ -322,7 +324,7 @@ example : exMol.masses.length = exMol.pos.length ∧ exMol.masses.sum ≠ 0 ∧ 
   simp [exMol, centerOfMass, V3.smul, V3.add, rigid, M3.mulVec, V3.dot, rotMat, rotH, M3.smul, Q4.normSq, Q4.dot]
 
 /-- the conclusion of `pt_roundtrip` evaluated on this instance: cell (1,1,1) = index 7 of 8 -/
-example : (assignFrame (1 / 2000000) exGrid exMol (-1, -1, 1) false true exFrame).toOption.map (·.idx) = some (some 7) := by
+example : (assignFrame (1 / 2000) exGrid exMol (-1, -1, 1) false true exFrame).toOption.map (·.idx) = some (some 7) := by
   decide +kernel
 
 /-! ## 7. the margin rule of the correspondence check -/
